@@ -173,6 +173,9 @@ def rpmsPure (a : RpmsArgs) (st : BStep) (env : REnv) : Except Err REnv :=
     | none => .error .other                                      -- `nevra_dict` not bound yet
     | some d => refuseIf ((a.category == lit "source") != (archIn nevraSrcArches d.arch)) env
   | .sigkeyLower => .ok { env with sigkey := env.sigkey.map Str.lowerAscii }
+  -- with the type test in front (F42 repaired): the argument type of the model is `str or None`, so the test cannot fire here;
+  -- the two shapes are told apart so that the statement list (`C12_scripts`) says which one the source contains
+  | .sigkeyTyped => .ok { env with sigkey := env.sigkey.map Str.lowerAscii }
   | .srpmCanon =>
     match env.srpm with
     | some t =>
@@ -208,7 +211,7 @@ def Rpms.add (s : PyVal) (a : RpmsArgs) : PyVal × Out := rpmsRun a Gen.rpms_add
 /-- the statement list the theorems are proved for (`Gen.rpms_add_script` must equal it: `Proofs/Builders.lean`) -/
 def specRpmsScript : List BStep :=
   [.archTable, .srcArch, .category, .emptyPath, .absolutePath, .nevra, .sourceWithSrpm, .binaryWithoutSrpm,
-   .categoryArch, .sigkeyLower, .srpmCanon, .insert]
+   .categoryArch, .sigkeyTyped, .srpmCanon, .insert]
 
 /-! ### Modules.add -/
 
@@ -282,9 +285,10 @@ def modulesCheck (a : ModulesArgs) : Except Err ModulesPlan :=
   else match checkUid a.uid with
     | .error e => .error e
     | .ok (uid, u) =>
-      if Str.startsWith a.modulemdPath ['/'] then .error .valueError
-      else if a.kojiTag.isEmpty then .error .valueError
-      else if a.modulemdPath.isEmpty then .error .valueError       -- the loop over variant/koji_tag/modulemd_path
+      -- the loop over variant / koji_tag / modulemd_path comes first (F42 repaired: before any attribute access)
+      if a.kojiTag.isEmpty then .error .valueError
+      else if a.modulemdPath.isEmpty then .error .valueError
+      else if Str.startsWith a.modulemdPath ['/'] then .error .valueError
       else match a.rpms with
         | .other => .error .valueError
         | .list xs | .tuple xs =>                                     -- `list(rpms)`: a tuple is stored as list elements
@@ -365,8 +369,8 @@ def modulesRun (a : ModulesArgs) : List BStep → PyVal → MEnv → PyVal × Ou
 def Modules.add (s : PyVal) (a : ModulesArgs) : PyVal × Out := modulesRun a Gen.modules_add_script s (MEnv.init a)
 
 def specModulesScript : List BStep :=
-  [.emptyVariant, .archTable, .category, .uid, .assign, .assign, .assign, .assign, .absoluteMdPath, .kojiTag,
-   .paramsLoop, .rpmsType, .insert]
+  [.emptyVariant, .archTable, .category, .uid, .assign, .assign, .assign, .assign, .paramsLoop, .absoluteMdPath,
+   .kojiTag, .rpmsType, .insert]
 
 /-! ### ExtraFiles.add -/
 
